@@ -13,3 +13,13 @@ impl From<io::Error> for ZipError {
 //@| fn: src/result.rs | impl From<io::Error> for ZipError | fn from
 //@end
 }
+// TRUSTED (language semantics of `?`): an `io::Error` leaving a function that returns ZipResult through `?` is converted by
+// the crate's own `From` impl above (whose body is verified against from_spec).  vstd leaves the conversion relation of `?`
+// (`spec_from`) uninterpreted for user impls; this axiom ties it to that impl, so that error KINDS are known at call sites.
+pub mod qm_axiom {
+    use vstd::prelude::*;
+    use super::{io, ZipError};
+    pub broadcast axiom fn axiom_question_mark_converts_io_error(v: io::Error, ret: ZipError)
+        ensures #[trigger] vstd::std_specs::control_flow::spec_from::<ZipError, io::Error>(v, ret) ==> ret == ZipError::Io(v);
+}
+broadcast use qm_axiom::axiom_question_mark_converts_io_error;
